@@ -63,7 +63,7 @@ def processLine (brotliDict : ByteArray) (line : String) : String :=
       | "mdec" => handleMdec kv
       | "mrs" => handleMrs kv
       | "lwm" => handleLwm kv
-      | "lrm" => handleLrm kv
+      | "lrm" => handleLrm brotliDict kv
       | "mrm" => handleMrm kv
       | _ => "bad-kind"
     s!"{id} {out}"
